@@ -281,6 +281,107 @@ func checkC15(c *Ctx) {
 		mainM := &zr.Program{Imports: []zr.Import{{Name: "主模块"}}, Body: []zr.Stmt{zr.Show(zr.CallE("法"))}}
 		special("module-named-like-main", map[string]string{"main.zn": zr.Render(mainM, zr.Layout{}), "主模块.zn": zr.Render(namedMain, zr.Layout{})}, nil, mainM, map[string]*zr.Program{"主模块": namedMain})
 	}
+	// "an imported method behaves as it does inside its own module": the same call is made once at
+	// the end of the module's own file (run as main program) and once by an importer; the results
+	// must agree. The module bodies keep constants, counters and tables for their methods
+	{
+		type mm struct{ name, mod, probe string }
+		mms := []mm{
+			{"module-variable", "令税率 = 5\n如何含税？\n\t输入价\n\t输出 价 + 税率\n", "（含税：100）"},
+			{"module-constant-in-type-method", "令圆周率恒为3\n定义圆：\n\t其半径 = 2\n\t如何面积？\n\t\t输出 圆周率 * 其半径 * 其半径\n", "以（新建圆）（面积）"},
+			{"module-counter", "令计 = 0\n如何下一个？\n\t计 = 计 + 1\n\t输出 计\n", "【（下一个），（下一个），（下一个）】"},
+			{"module-table", "令表 = 【1，2】\n如何添？\n\t输入数\n\t以表（后增：数）\n\t输出 表\n", "【（添：3），（添：4）】"},
+			{"module-variable-through-sibling", "令基 = 21\n如何外？\n\t输出（内）\n如何内？\n\t输出 基 * 2\n", "（外）"},
+			{"module-variable-in-constructor", "令前缀 = “P-”\n定义签：\n\t其文 = “”\n如何新建签？\n\t输入名\n\t其文 = 前缀 + 名\n", "（新建签：“x”）之文"},
+			{"module-variable-in-handler", "令备用 = 7\n如何试？\n\t输出 1 / 0\n\n\t拦截异常：\n\t\t输出 备用\n", "（试）"},
+		}
+		// (the importer takes everything, only what it needs, or defines a method of the same name as
+		// a helper of the module: none of that changes what the module's own code does)
+		person := "如何默认称呼？\n\t输出 “乙氏”\n定义人：\n\t其名 = “”\n\t如何全名？\n\t\t输出 （默认称呼） + 其名\n如何新建人？\n\t输入名\n\t其名 = （默认称呼） + 名\n如何造人？\n\t输入名\n\t输出（新建人：名）\n"
+		mms = append(mms,
+			mm{"constructor-uses-module-helper", person, "（新建人：“甲”）之名"},
+			mm{"type-method-uses-module-helper", person, "以（新建人：“甲”）（全名）"},
+			mm{"factory-uses-module-helper", person, "（造人：“甲”）之名"},
+		)
+		mreqs := []Req{}
+		for _, m := range mms {
+			mreqs = append(mreqs,
+				Req{Op: "exec", Main: "main.zn", Libs: true, EvalBudget: 20000, ParseBudget: 20000, Files: []File{{Path: "main.zn", Data: widen([]byte(m.mod + "输出 " + m.probe + "\n"))}}},
+				Req{Op: "exec", Main: "main.zn", Libs: true, EvalBudget: 20000, ParseBudget: 20000, Files: []File{{Path: "main.zn", Data: widen([]byte("导入“模”\n输出 " + m.probe + "\n"))}, {Path: "模.zn", Data: widen([]byte(m.mod))}}})
+		}
+		// further importers of the last three modules: selective import, and an importer with a
+		// method of its own that is called like the module's helper
+		type extra struct {
+			k    int
+			name string
+			main string
+		}
+		extras := []extra{}
+		for k, m := range mms {
+			if m.mod != person {
+				continue
+			}
+			extras = append(extras,
+				extra{k, "selective", "导入“模”之人、造人\n输出 " + m.probe + "\n"},
+				extra{k, "same-named-helper-in-importer", "导入“模”之人、造人\n如何默认称呼？\n\t输出 “主氏”\n输出 " + m.probe + "\n"})
+		}
+		for _, e := range extras {
+			mreqs = append(mreqs, Req{Op: "exec", Main: "main.zn", Libs: true, EvalBudget: 20000, ParseBudget: 20000, Files: []File{{Path: "main.zn", Data: widen([]byte(e.main))}, {Path: "模.zn", Data: widen([]byte(mms[e.k].mod))}}})
+		}
+		outs := make([]string, len(mreqs))
+		c.runBatches(mreqs, 4, func(i int, req *Req, resp *Resp) {
+			c.Eval()
+			o := resp.Kind
+			if resp.Kind == "value" && resp.Val != nil {
+				o = resp.Val.String()
+			} else if resp.Kind == "error" && resp.Err != nil {
+				o = fmt.Sprintf("error %d (%s)", resp.Err.Code, resp.Err.Msg)
+			}
+			c.mu.Lock()
+			outs[i] = o
+			c.mu.Unlock()
+		})
+		for k, m := range mms {
+			own, imported := outs[2*k], outs[2*k+1]
+			c.Nontrivial("own-vs-imported|" + m.name + "|" + own)
+			if !strings.HasPrefix(own, "error") && own != "" && own != imported {
+				c.Violation("modules:own-vs-imported:"+m.name, fmt.Sprintf("%s: %s yields %s at the end of the module's own file and %s when an importer makes the same call\n--- 模.zn\n%s", m.name, m.probe, own, imported, m.mod), map[string]interface{}{"req": mreqs[2*k+1]})
+			}
+		}
+		for x, e := range extras {
+			m := mms[e.k]
+			own, imported := outs[2*e.k], outs[2*len(mms)+x]
+			c.Nontrivial("own-vs-imported|" + m.name + "|" + e.name + "|" + own)
+			if !strings.HasPrefix(own, "error") && own != "" && own != imported {
+				c.Violation("modules:own-vs-imported:"+m.name+":"+e.name, fmt.Sprintf("%s (%s): %s yields %s at the end of the module's own file and %s in this importer\n--- main.zn\n%s--- 模.zn\n%s", m.name, e.name, m.probe, own, imported, e.main, m.mod), map[string]interface{}{"req": mreqs[2*len(mms)+x]})
+			}
+		}
+		// … and the importer neither sees nor disturbs what the module keeps for itself
+		type hp struct{ name, main, want string }
+		mod := mms[0].mod
+		hps := []hp{
+			{"module-variable-not-exported", "导入“模”\n输出 税率\n", "error:42"},
+			{"importer-variable-of-the-same-name", "导入“模”\n令税率 = 1\n输出【（含税：100），税率】\n", "list[num(105),num(1)]"},
+		}
+		hreqs := []Req{}
+		for _, h := range hps {
+			hreqs = append(hreqs, Req{Op: "exec", Main: "main.zn", Libs: true, EvalBudget: 20000, ParseBudget: 20000, Files: []File{{Path: "main.zn", Data: widen([]byte(h.main))}, {Path: "模.zn", Data: widen([]byte(mod))}}})
+		}
+		c.runBatches(hreqs, 4, func(i int, req *Req, resp *Resp) {
+			c.Eval()
+			h := hps[i]
+			got := resp.Kind
+			if resp.Kind == "value" && resp.Val != nil {
+				got = resp.Val.String()
+			} else if resp.Kind == "error" && resp.Err != nil {
+				got = fmt.Sprintf("error:%d", resp.Err.Code)
+			}
+			c.Nontrivial("module-private|" + h.name + "|" + got)
+			if got != h.want {
+				c.Violation("modules:private:"+h.name, fmt.Sprintf("%s: outcome %s, expected %s\n--- main.zn\n%s--- 模.zn\n%s", h.name, got, h.want, h.main, mod), map[string]interface{}{"req": req})
+			}
+		})
+	}
 	reqs := make([]Req, len(cases))
 	for i, cs := range cases {
 		reqs[i] = Req{Op: "exec", Main: "main.zn", Files: cs.files, Libs: true, EvalBudget: 50*cs.ref.Steps + 5000, ParseBudget: 200000}
